@@ -21,13 +21,18 @@ def build_driver(prop):
     lib = build_lib()
     src = os.path.join(vf.VERIF, "replay", prop + ".cpp")
     exe = os.path.join(vf.BUILD, "replay_" + prop)
+    extra = []
+    for line in open(src):
+        if line.startswith("// VERIF-BUILD:"):      # extra sources / flags of this driver ({REPO} = the tree under check)
+            extra += line[len("// VERIF-BUILD:"):].replace("{REPO}", vf.REPO).split()
     cmd = ["g++", "-std=c++11", "-O1", "-g", "-I", vf.REPO, "-I", NATIVE, "-I", os.path.join(vf.VERIF, "replay"),
-           src, lib, "-lgmp", "-o", exe]
+           src] + extra + [lib, "-lgmp", "-o", exe]
     subprocess.run(cmd, check=True)
     return exe
 
 
 def run_replay(prop, args, timeout=120):
     exe = build_driver(prop)
-    p = subprocess.run([exe] + [str(x) for x in args], stdout=subprocess.PIPE, stderr=subprocess.STDOUT, timeout=timeout)
+    env = dict(os.environ, ASAN_OPTIONS="detect_leaks=0:exitcode=23")
+    p = subprocess.run([exe] + [str(x) for x in args], stdout=subprocess.PIPE, stderr=subprocess.STDOUT, timeout=timeout, env=env)
     return p.returncode, p.stdout.decode(errors="replace")
